@@ -30,8 +30,13 @@ procs = []
 for w in range(workers):
     cmd = ["cargo", "+nightly", "fuzz", "run", target, corpus, "--", f"-runs={per}", f"-seed={seed * 16 + w + 1}",
            "-len_control=0", "-max_len=420", "-timeout=120", f"-artifact_prefix={art}", "-print_final_stats=1"]
-    procs.append(subprocess.Popen(cmd, cwd="/verif/fuzz", env=env, stdout=subprocess.PIPE, stderr=subprocess.STDOUT, text=True))
-outs = [p.communicate()[0] for p in procs]
+    lf = open(f"{art}log{w}.txt", "w")
+    procs.append((subprocess.Popen(cmd, cwd="/verif/fuzz", env=env, stdout=lf, stderr=subprocess.STDOUT), lf, f"{art}log{w}.txt"))
+outs = []
+for p, lf, path in procs:
+    p.wait(); lf.close()
+    outs.append(open(path, errors="replace").read())
+    os.remove(path)
 execs = 0; viol = None; cov = 0
 for o in outs:
     m = re.search(r"stat::number_of_executed_units:\s*(\d+)", o)
